@@ -22,7 +22,7 @@ EXPLANATION = (
     'own parameters, and range tests reject exactly outside the inclusive '
     'bounds.  The set equality iterator = formula = validator = sampler is '
     'arithmetic over runtime sizes and is not decided.')
-FLOORS = {'C11.a': 3, 'C11.b': 12, 'C11.c': 2, 'C11.d': 4, 'C11.e': 2, 'C11.g': 30, 'C11.z': 2}
+FLOORS = {'C11.a': 3, 'C11.b': 12, 'C11.c': 2, 'C11.d': 4, 'C11.e': 2, 'C11.g': 30, 'C11.h': 2, 'C11.z': 2}
 FILES = ['pyglove/core/geno/base.py', 'pyglove/core/geno/categorical.py',
          'pyglove/core/geno/space.py', 'pyglove/core/geno/numerical.py',
          'pyglove/core/geno/custom.py', 'pyglove/core/geno/sweeping.py',
@@ -492,6 +492,55 @@ def rule_g(ctx):
   S.rejection_census_obligations(ctx, 'C11.g', REJECTIONS['C11'], floor=30)
 
 
+def rule_h(ctx):
+  """(1) Random generation "always returns a member of the set": the float
+  decision is the generator's own uniform(min_value, max_value) - which stays
+  inside [min, max] by construction - or, if the drawn number is transformed
+  (log/exp arithmetic rounds outside the range at the boundaries), it is clamped
+  to both bounds afterwards.  (2) "The sweeping generator proposes the same
+  sequence": the successor is asked of the generator's own spec (= C15.e)."""
+  idx = ctx.index
+  f = idx.func(G + 'numerical.Float._random_dna')
+  rets = [r.value for r in ast.walk(f.node) if isinstance(r, ast.Return) and r.value is not None]
+  problems = []
+  def value_exprs(e, depth=0):
+    # DNA(value=E) / DNA(E): follow E through locals
+    if isinstance(e, ast.Call) and (A.call_name(e) or '').endswith('DNA'):
+      v = A.kwarg(e, 'value') or (e.args[0] if e.args else None)
+      return value_exprs(v, depth) if v is not None else []
+    if isinstance(e, ast.Name) and depth < 4:
+      out = []
+      for _, v in D.defs_of(f.node, e.id):
+        if v is not None:
+          out += value_exprs(v, depth + 1)
+      return out
+    return [e]
+  def is_plain_uniform(e):
+    return isinstance(e, ast.Call) and isinstance(e.func, ast.Attribute) and e.func.attr == 'uniform' \
+        and [A.unparse(a) for a in e.args] in (['self.min_value', 'self.max_value'], ['self._min_value', 'self._max_value'])
+  def is_clamped(e):
+    t = A.unparse(e)
+    return isinstance(e, ast.Call) and A.call_name(e) in ('min', 'max') and 'min_value' in t and 'max_value' in t \
+        and 'min(' in t and 'max(' in t
+  for r in rets:
+    for v in value_exprs(r):
+      if not (is_plain_uniform(v) or is_clamped(v)):
+        problems.append(f'line {v.lineno}: the decision is `{A.unparse(v, 70)}` - neither uniform(min_value, max_value) '
+                        f'itself nor clamped to both bounds')
+  ctx.ob('C11.h', f.fq + '#in-range', bool(rets) and not problems,
+         'a random float decision is uniform(min_value, max_value) itself, or is clamped to both bounds after any transform',
+         f.loc, '; '.join(problems))
+  from sa.rules import c15
+  before = len(ctx.obs)
+  c15.rule_e(ctx)
+  keep = []
+  for o in ctx.obs[before:]:
+    if 'unbound' in o.construct:
+      o.rule = 'C11.h'
+      keep.append(o)
+  ctx.obs[before:] = keep
+
+
 def run(ctx):
   ctx.consult(*FILES)
   rule_a(ctx)
@@ -500,6 +549,7 @@ def run(ctx):
   rule_d(ctx)
   rule_e(ctx)
   rule_g(ctx)
+  rule_h(ctx)
   S.optional_truthiness_obligations(ctx, 'C11.z', ['pyglove/core/geno/base.py', 'pyglove/core/geno/categorical.py', 'pyglove/core/geno/numerical.py', 'pyglove/core/geno/space.py', 'pyglove/core/geno/sweeping.py', 'pyglove/core/geno/random.py'], 'index 0, bound 0.0 and seed 0 are values')
   ctx.assume('exactness of the odometer (next_dna) against the counting formula is arithmetic over '
              'runtime sizes: not decided statically')
